@@ -130,6 +130,11 @@ struct Case {
     /// start from an owned tensor with the recipe's strides instead of a view
     owned: bool,
     ops: Vec<Op>,
+    /// per op: run it (and the state comparison after it) through the static-rank
+    /// types (`NdTensorView<_, N>` / `NdTensor<_, N>`, N = 1..=4) where the
+    /// current rank allows, converting back to dynamic rank afterwards
+    #[serde(default)]
+    nd: Vec<bool>,
 }
 
 struct Fail {
@@ -143,6 +148,94 @@ struct Ctx {
     applied: usize,
     special: bool,
     trace: Vec<String>,
+    static_flags: Vec<bool>,
+    static_now: bool,
+    static_ops: usize,
+}
+
+/// Run `$body` with `$w` = the static-rank view of `$v` (rank `$nd` in 1..=4).
+macro_rules! with_n {
+    ($v:expr, $nd:expr, |$w:ident| $body:expr) => {
+        match $nd {
+            1 => {
+                let $w = $v.nd_view::<1>();
+                $body
+            }
+            2 => {
+                let $w = $v.nd_view::<2>();
+                $body
+            }
+            3 => {
+                let $w = $v.nd_view::<3>();
+                $body
+            }
+            _ => {
+                let $w = $v.nd_view::<4>();
+                $body
+            }
+        }
+    };
+}
+
+/// Convert the owned dynamic-rank tensor `$t` to `NdTensor<_, N>`, run `$body`
+/// with it as `$n` (mutable) and convert back.
+macro_rules! own_n {
+    ($t:expr, $nd:expr, |$n:ident| $body:expr) => {
+        match $nd {
+            1 => {
+                #[allow(unused_mut)]
+                let mut $n = $t.into_rank::<1>().ok().expect("rank 1");
+                $body;
+                $n.into_dyn()
+            }
+            2 => {
+                #[allow(unused_mut)]
+                let mut $n = $t.into_rank::<2>().ok().expect("rank 2");
+                $body;
+                $n.into_dyn()
+            }
+            3 => {
+                #[allow(unused_mut)]
+                let mut $n = $t.into_rank::<3>().ok().expect("rank 3");
+                $body;
+                $n.into_dyn()
+            }
+            _ => {
+                #[allow(unused_mut)]
+                let mut $n = $t.into_rank::<4>().ok().expect("rank 4");
+                $body;
+                $n.into_dyn()
+            }
+        }
+    };
+}
+
+/// Items of an `inner_iter` compared with the reference: `numel(outer)` items of
+/// the inner shape whose elements are consecutive chunks of the logical data.
+fn check_inner(items: Vec<Result<RefArray, String>>, k: usize, r: &RefArray) -> Option<String> {
+    let nd = r.shape.len();
+    let (outer, inner) = r.shape.split_at(nd - k);
+    if items.len() != numel(outer) {
+        return Some(format!("{} items, expected {}", items.len(), numel(outer)));
+    }
+    let chunk = numel(inner);
+    for (i, it) in items.iter().enumerate() {
+        match it {
+            Err(e) => return Some(e.clone()),
+            Ok(a) => {
+                if a.shape != inner || a.data[..] != r.data[i * chunk..(i + 1) * chunk] {
+                    return Some(format!(
+                        "item {i} has shape {:?} elems {}, expected shape {:?} elems {}",
+                        a.shape,
+                        short(&a.data),
+                        inner,
+                        short(&r.data[i * chunk..(i + 1) * chunk])
+                    ));
+                }
+            }
+        }
+    }
+    None
 }
 
 impl Ctx {
@@ -221,6 +314,45 @@ fn check_view(v: &TensorView<i32>, r: &RefArray, ctx: &mut Ctx, last: &str) -> R
             sig: "iter:elems".to_string(),
             detail: here(&format!("iter() = {}, expected {}", short(&it), short(&r.data))),
         });
+    }
+    // 4. inner views of the last min(ndim, 2) dims
+    let nd = shape.len();
+    if nd >= 1 {
+        let k = nd.min(2);
+        let items: Vec<Result<RefArray, String>> = if k == 1 {
+            v.inner_iter::<1>().map(|x| read_view(&x.as_dyn())).collect()
+        } else {
+            v.inner_iter::<2>().map(|x| read_view(&x.as_dyn())).collect()
+        };
+        if let Some(d) = check_inner(items, k, r) {
+            return Err(Fail { sig: format!("inner_iter:{last}"), detail: here(&format!("inner_iter::<{k}>: {d}")) });
+        }
+    }
+    // 5. the same reads through the static-rank view
+    if ctx.static_now && (1..=4).contains(&nd) {
+        ctx.label("static-rank:state-read");
+        let (tv, it, inner): (Vec<i32>, Vec<i32>, Vec<Result<RefArray, String>>) = with_n!(v, nd, |w| {
+            (
+                w.to_vec(),
+                w.iter().copied().collect(),
+                w.inner_iter::<1>().map(|x| read_view(&x.as_dyn())).collect(),
+            )
+        });
+        if tv != r.data {
+            return Err(Fail {
+                sig: format!("static:to_vec:elems:{path}"),
+                detail: here(&format!("NdTensorView::to_vec() = {}, expected {}", short(&tv), short(&r.data))),
+            });
+        }
+        if it != r.data {
+            return Err(Fail {
+                sig: "static:iter:elems".to_string(),
+                detail: here(&format!("NdTensorView::iter() = {}, expected {}", short(&it), short(&r.data))),
+            });
+        }
+        if let Some(d) = check_inner(inner, 1, r) {
+            return Err(Fail { sig: format!("static:inner_iter:{last}"), detail: here(&format!("NdTensorView::inner_iter::<1>: {d}")) });
+        }
     }
     Ok(())
 }
@@ -430,6 +562,7 @@ fn run(cur: Cur<'_>, r: RefArray, ops: &[Op], ctx: &mut Ctx, last: &str) -> Resu
     let Some((op, rest)) = ops.split_first() else {
         return Ok(());
     };
+    ctx.static_now = ctx.static_flags.get(ctx.trace.len()).copied().unwrap_or(false);
     ctx.trace.push(format!("{op:?}"));
     match cur {
         Cur::View(v) => step_view(v, r, op, rest, ctx),
@@ -458,6 +591,14 @@ fn step_view<'a>(v: TensorView<'a, i32>, r: RefArray, op: &Op, rest: &[Op], ctx:
     let name = op.name();
     let shape = r.shape.clone();
     let nd = shape.len();
+    // run this op through NdTensorView<_, nd>?
+    let st = ctx.static_now && (1..=4).contains(&nd);
+    macro_rules! mark_static {
+        ($l:expr) => {{
+            ctx.label($l);
+            ctx.static_ops += 1;
+        }};
+    }
     macro_rules! next_view {
         ($nv:expr, $nr:expr) => {{
             ctx.applied += 1;
@@ -565,7 +706,12 @@ fn step_view<'a>(v: TensorView<'a, i32>, r: RefArray, op: &Op, rest: &[Op], ctx:
             let n = shape.get(ax).copied().unwrap_or(2);
             let (s, e) = (sel(*a, n + 1), sel(*b, n + 1));
             let want = r.slice_axis(ax, s, e);
-            let got = vcore::catch(|| Ok(v.slice_axis(ax, s..e)));
+            let got = if st {
+                mark_static!("static:slice_axis");
+                vcore::catch(|| Ok(with_n!(v, nd, |w| w.slice_axis(ax, s..e).as_dyn())))
+            } else {
+                vcore::catch(|| Ok(v.slice_axis(ax, s..e)))
+            };
             match judge(name, "", got, invalid_reason(&want), false, ctx)? {
                 Some(nv) => next_view!(nv, want.unwrap()),
                 None => unchanged!(),
@@ -576,7 +722,12 @@ fn step_view<'a>(v: TensorView<'a, i32>, r: RefArray, op: &Op, rest: &[Op], ctx:
             let n = shape.get(ax).copied().unwrap_or(2);
             let i = sel(*index, n);
             let want = r.index_axis(ax, i);
-            let got = vcore::catch(|| Ok(v.index_axis(ax, i)));
+            let got = if st {
+                mark_static!("static:index_axis");
+                vcore::catch(|| Ok(with_n!(v, nd, |w| w.index_axis(ax, i).as_dyn())))
+            } else {
+                vcore::catch(|| Ok(v.index_axis(ax, i)))
+            };
             match judge(name, "", got, invalid_reason(&want), false, ctx)? {
                 Some(nv) => next_view!(nv, want.unwrap()),
                 None => unchanged!(),
@@ -585,7 +736,15 @@ fn step_view<'a>(v: TensorView<'a, i32>, r: RefArray, op: &Op, rest: &[Op], ctx:
         Op::Permute { keys, bad } => {
             let order = perm_order(keys, nd, *bad);
             let want = r.permute(&order);
-            let got = vcore::catch(|| Ok(v.permuted(&order)));
+            let got = if st && order.len() == nd {
+                mark_static!("static:permuted");
+                if nd >= 3 && order.iter().enumerate().any(|(i, &o)| order.get(o) != Some(&i)) {
+                    ctx.label("static:permuted:non-involution-rank>=3");
+                }
+                vcore::catch(|| Ok(with_n!(v, nd, |w| w.permuted(std::array::from_fn(|k| order[k])).as_dyn())))
+            } else {
+                vcore::catch(|| Ok(v.permuted(&order)))
+            };
             match judge(name, "", got, invalid_reason(&want), false, ctx)? {
                 Some(nv) => next_view!(nv, want.unwrap()),
                 None => unchanged!(),
@@ -593,7 +752,12 @@ fn step_view<'a>(v: TensorView<'a, i32>, r: RefArray, op: &Op, rest: &[Op], ctx:
         }
         Op::Transpose => {
             let want = r.transpose();
-            let got = vcore::catch(|| Ok(v.transposed()));
+            let got = if st {
+                mark_static!("static:transposed");
+                vcore::catch(|| Ok(with_n!(v, nd, |w| w.transposed().as_dyn())))
+            } else {
+                vcore::catch(|| Ok(v.transposed()))
+            };
             match judge(name, "", got, None, false, ctx)? {
                 Some(nv) => next_view!(nv, want),
                 None => unchanged!(),
@@ -602,11 +766,22 @@ fn step_view<'a>(v: TensorView<'a, i32>, r: RefArray, op: &Op, rest: &[Op], ctx:
         Op::MoveAxis { from, to } => {
             let (f, t) = (sel(*from, nd), sel(*to, nd));
             let want = r.move_axis(f, t);
-            let got = vcore::catch(|| {
-                let mut nv = v.clone();
-                nv.move_axis(f, t);
-                Ok(nv)
-            });
+            let got = if st {
+                mark_static!("static:move_axis");
+                vcore::catch(|| {
+                    Ok(with_n!(v, nd, |w| {
+                        let mut n = w;
+                        n.move_axis(f, t);
+                        n.as_dyn()
+                    }))
+                })
+            } else {
+                vcore::catch(|| {
+                    let mut nv = v.clone();
+                    nv.move_axis(f, t);
+                    Ok(nv)
+                })
+            };
             match judge(name, "", got, invalid_reason(&want), false, ctx)? {
                 Some(nv) => next_view!(nv, want.unwrap()),
                 None => unchanged!(),
@@ -627,6 +802,9 @@ fn step_view<'a>(v: TensorView<'a, i32>, r: RefArray, op: &Op, rest: &[Op], ctx:
                         v.try_broadcast([target[0], target[1], target[2]]).map(|x| x.as_dyn()).map_err(|e| format!("{e:?}"))
                     }
                 })
+            } else if st {
+                mark_static!("static:broadcast");
+                vcore::catch(|| with_n!(v, nd, |w| w.try_broadcast(target.as_slice()).map_err(|e| format!("{e:?}"))))
             } else if *try_api {
                 vcore::catch(|| v.try_broadcast(target.as_slice()).map_err(|e| format!("{e:?}")))
             } else {
@@ -642,7 +820,12 @@ fn step_view<'a>(v: TensorView<'a, i32>, r: RefArray, op: &Op, rest: &[Op], ctx:
             let want = r.reshape(&target);
             match api {
                 ReshapeApi::Reshaped => {
-                    let got = vcore::catch(|| Ok(v.reshaped(target.as_slice())));
+                    let got = if st {
+                        mark_static!("static:reshaped");
+                        vcore::catch(|| Ok(with_n!(v, nd, |w| w.reshaped(target.as_slice()))))
+                    } else {
+                        vcore::catch(|| Ok(v.reshaped(target.as_slice())))
+                    };
                     match judge(name, "", got, invalid_reason(&want), false, ctx)? {
                         Some(cow) => {
                             // first look at the Cow itself, then continue with an owned copy
@@ -654,7 +837,12 @@ fn step_view<'a>(v: TensorView<'a, i32>, r: RefArray, op: &Op, rest: &[Op], ctx:
                     }
                 }
                 ReshapeApi::ToShape => {
-                    let got = vcore::catch(|| Ok(v.to_shape(target.as_slice())));
+                    let got = if st {
+                        mark_static!("static:to_shape");
+                        vcore::catch(|| Ok(with_n!(v, nd, |w| w.to_shape(target.as_slice()))))
+                    } else {
+                        vcore::catch(|| Ok(v.to_shape(target.as_slice())))
+                    };
                     match judge(name, "", got, invalid_reason(&want), false, ctx)? {
                         Some(t) => next_owned!(t, want.unwrap()),
                         None => unchanged!(),
@@ -669,7 +857,12 @@ fn step_view<'a>(v: TensorView<'a, i32>, r: RefArray, op: &Op, rest: &[Op], ctx:
         }
         Op::Squeeze => {
             let want = r.squeeze();
-            let got = vcore::catch(|| Ok(v.squeezed()));
+            let got = if st {
+                mark_static!("static:squeezed");
+                vcore::catch(|| Ok(with_n!(v, nd, |w| w.squeezed())))
+            } else {
+                vcore::catch(|| Ok(v.squeezed()))
+            };
             match judge(name, "", got, None, false, ctx)? {
                 Some(nv) => next_view!(nv, want),
                 None => unchanged!(),
@@ -678,8 +871,13 @@ fn step_view<'a>(v: TensorView<'a, i32>, r: RefArray, op: &Op, rest: &[Op], ctx:
         Op::InsertAxis { at, consuming } => {
             let at = sel(*at, nd + 1);
             let want = r.insert_axis(at);
+            if st && *consuming {
+                mark_static!("static:with_new_axis");
+            }
             let got = vcore::catch(|| {
-                if *consuming {
+                if st && *consuming {
+                    Ok(with_n!(v, nd, |w| w.with_new_axis(at).as_dyn()))
+                } else if *consuming {
                     Ok(v.clone().with_new_axis(at))
                 } else {
                     let mut nv = v.clone();
@@ -695,8 +893,13 @@ fn step_view<'a>(v: TensorView<'a, i32>, r: RefArray, op: &Op, rest: &[Op], ctx:
         Op::RemoveAxis { at, consuming } => {
             let at = sel(*at, nd);
             let want = r.remove_axis(at);
+            if st && *consuming {
+                mark_static!("static:with_axis_removed");
+            }
             let got = vcore::catch(|| {
-                if *consuming {
+                if st && *consuming {
+                    Ok(with_n!(v, nd, |w| w.with_axis_removed(at).as_dyn()))
+                } else if *consuming {
                     Ok(v.clone().with_axis_removed(at))
                 } else {
                     let mut nv = v.clone();
@@ -744,7 +947,17 @@ fn step_view<'a>(v: TensorView<'a, i32>, r: RefArray, op: &Op, rest: &[Op], ctx:
             let n = shape.get(ax).copied().unwrap_or(2);
             let m = sel(*mid, n + 1);
             let want = r.split_at(ax, m);
-            let got = vcore::catch(|| Ok(v.split_at(ax, m)));
+            let got = if st {
+                mark_static!("static:split_at");
+                vcore::catch(|| {
+                    Ok(with_n!(v, nd, |w| {
+                        let (l, r2) = w.split_at(ax, m);
+                        (l.as_dyn(), r2.as_dyn())
+                    }))
+                })
+            } else {
+                vcore::catch(|| Ok(v.split_at(ax, m)))
+            };
             let inv = want.as_ref().err().map(|i| i.0.as_str());
             match judge(name, "", got, inv, false, ctx)? {
                 Some((l, rt)) => {
@@ -762,11 +975,23 @@ fn step_view<'a>(v: TensorView<'a, i32>, r: RefArray, op: &Op, rest: &[Op], ctx:
             }
         }
         Op::ToContiguous => {
-            let got = vcore::catch(|| Ok(v.to_contiguous()));
+            if st {
+                mark_static!("static:to_contiguous");
+            }
+            let got = vcore::catch(|| {
+                Ok(if st {
+                    with_n!(v, nd, |w| {
+                        let c = w.to_contiguous();
+                        (c.data().to_vec(), c.shape().to_vec())
+                    })
+                } else {
+                    let c = v.to_contiguous();
+                    (c.data().to_vec(), c.shape().to_vec())
+                })
+            });
             match judge(name, "", got, None, false, ctx)? {
-                Some(c) => {
-                    let d: Vec<i32> = c.data().to_vec();
-                    let s: Vec<usize> = c.shape().to_vec();
+                Some((d, s)) => {
+                    let (d, s): (Vec<i32>, Vec<usize>) = (d, s);
                     if s != r.shape || d != r.data {
                         return Err(Fail {
                             sig: format!("to_contiguous:{}", if s != r.shape { "shape" } else { "elems" }),
@@ -786,7 +1011,12 @@ fn step_view<'a>(v: TensorView<'a, i32>, r: RefArray, op: &Op, rest: &[Op], ctx:
             }
         }
         Op::ToTensor => {
-            let got = vcore::catch(|| Ok(v.to_tensor()));
+            let got = if st {
+                mark_static!("static:to_tensor");
+                vcore::catch(|| Ok(with_n!(v, nd, |w| w.to_tensor().into_dyn())))
+            } else {
+                vcore::catch(|| Ok(v.to_tensor()))
+            };
             match judge(name, "", got, None, false, ctx)? {
                 Some(t) => next_owned!(t, r),
                 None => unchanged!(),
@@ -796,7 +1026,12 @@ fn step_view<'a>(v: TensorView<'a, i32>, r: RefArray, op: &Op, rest: &[Op], ctx:
             let want_len = (r.len() as isize + *delta as isize).max(0) as usize;
             let invalid = if want_len != r.len() { Some("destination length mismatch") } else { None };
             let mut buf: Vec<MaybeUninit<i32>> = vec![MaybeUninit::new(-7); want_len];
-            let got = vcore::catch(|| Ok(v.copy_into_slice(&mut buf[..]).to_vec()));
+            let got = if st {
+                mark_static!("static:copy_into_slice");
+                vcore::catch(|| Ok(with_n!(v, nd, |w| w.copy_into_slice(&mut buf[..]).to_vec())))
+            } else {
+                vcore::catch(|| Ok(v.copy_into_slice(&mut buf[..]).to_vec()))
+            };
             match judge(name, "", got, invalid, false, ctx)? {
                 Some(d) => {
                     if d != r.data {
@@ -813,7 +1048,12 @@ fn step_view<'a>(v: TensorView<'a, i32>, r: RefArray, op: &Op, rest: &[Op], ctx:
         }
         Op::Map => {
             let want = r.map(|x| x.wrapping_mul(2).wrapping_add(1));
-            let got = vcore::catch(|| Ok(v.map(|x| x.wrapping_mul(2).wrapping_add(1))));
+            let got = if st {
+                mark_static!("static:map");
+                vcore::catch(|| Ok(with_n!(v, nd, |w| w.map(|x| x.wrapping_mul(2).wrapping_add(1)).into_dyn())))
+            } else {
+                vcore::catch(|| Ok(v.map(|x| x.wrapping_mul(2).wrapping_add(1))))
+            };
             match judge(name, "", got, None, false, ctx)? {
                 Some(t) => next_owned!(t, want),
                 None => unchanged!(),
@@ -827,7 +1067,7 @@ fn step_view<'a>(v: TensorView<'a, i32>, r: RefArray, op: &Op, rest: &[Op], ctx:
             } else {
                 None
             };
-            let mut dest: Tensor<i32> = if *dest_transposed {
+            let dest: Tensor<i32> = if *dest_transposed {
                 let rev: Vec<usize> = dshape.iter().rev().copied().collect();
                 let mut d = Tensor::full(&rev, -9);
                 d.transpose();
@@ -838,12 +1078,28 @@ fn step_view<'a>(v: TensorView<'a, i32>, r: RefArray, op: &Op, rest: &[Op], ctx:
             if *dest_transposed && nd >= 2 {
                 ctx.label("copy_from:noncontiguous-dest");
             }
+            if st {
+                mark_static!("static:copy_from");
+            }
             let got = vcore::catch(|| {
-                dest.copy_from(&v);
-                Ok(())
+                if st {
+                    // static-rank destination view and source view of the same rank
+                    let mut dest = dest;
+                    match nd {
+                        1 => dest.nd_view_mut::<1>().copy_from(&v.nd_view::<1>()),
+                        2 => dest.nd_view_mut::<2>().copy_from(&v.nd_view::<2>()),
+                        3 => dest.nd_view_mut::<3>().copy_from(&v.nd_view::<3>()),
+                        _ => dest.nd_view_mut::<4>().copy_from(&v.nd_view::<4>()),
+                    }
+                    Ok(dest)
+                } else {
+                    let mut dest = dest;
+                    dest.copy_from(&v);
+                    Ok(dest)
+                }
             });
             match judge(name, "", got, invalid, false, ctx)? {
-                Some(()) => next_owned!(dest, r),
+                Some(d) => next_owned!(d, r),
                 None => unchanged!(),
             }
         }
@@ -860,7 +1116,29 @@ fn step_owned(mut t: Tensor<i32>, r: RefArray, op: &Op, rest: &[Op], ctx: &mut C
     let name = op.name();
     let shape = r.shape.clone();
     let nd = shape.len();
+    let st = ctx.static_now && (1..=4).contains(&nd);
     ctx.label("owned-state");
+    // Static-rank variant of an in-place op: the tensor is converted to
+    // NdTensor<_, nd>, modified and converted back; after a panic it is gone,
+    // so the chain stops (like the consuming APIs).
+    macro_rules! static_owned {
+        ($label:expr, $want:expr, |$n:ident| $body:expr) => {{
+            ctx.label($label);
+            ctx.static_ops += 1;
+            let want: Result<RefArray, Invalid> = $want;
+            let got = vcore::catch(|| Ok(own_n!(t, nd, |$n| $body)));
+            return match judge(name, "", got, invalid_reason(&want), false, ctx)? {
+                Some(nt) => {
+                    ctx.applied += 1;
+                    run(Cur::Owned(nt), want.unwrap(), rest, ctx, name)
+                }
+                None => {
+                    ctx.label("request-rejected-by-both");
+                    Ok(())
+                }
+            };
+        }};
+    }
     macro_rules! next_owned {
         ($nt:expr, $nr:expr) => {{
             ctx.applied += 1;
@@ -890,17 +1168,70 @@ fn step_owned(mut t: Tensor<i32>, r: RefArray, op: &Op, rest: &[Op], ctx: &mut C
     match op {
         Op::Permute { keys, bad } => {
             let order = perm_order(keys, nd, *bad);
+            if st && order.len() == nd {
+                if nd >= 3 && order.iter().enumerate().any(|(i, &o)| order.get(o) != Some(&i)) {
+                    ctx.label("static:permute:non-involution-rank>=3");
+                }
+                let want = r.permute(&order);
+                match keys.iter().map(|&k| k as usize).sum::<usize>() % 3 {
+                    0 => static_owned!("static:permute", want, |n| n.permute(std::array::from_fn(|k| order[k]))),
+                    1 => static_owned!("static:into_permuted", want, |n| n = n.into_permuted(std::array::from_fn(|k| order[k]))),
+                    _ => {
+                        // permuted_mut: look at the mutable view first, then permute in place
+                        let mut seen: Option<Result<RefArray, String>> = None;
+                        let seen_ref = &mut seen;
+                        ctx.label("static:permuted_mut");
+                        ctx.static_ops += 1;
+                        let got = vcore::catch(|| {
+                            Ok(own_n!(t, nd, |n| {
+                                *seen_ref = Some(read_view(&n.permuted_mut(std::array::from_fn(|k| order[k])).view().as_dyn()));
+                                n.permute(std::array::from_fn(|k| order[k]))
+                            }))
+                        });
+                        return match judge(name, "", got, invalid_reason(&want), false, ctx)? {
+                            Some(nt) => {
+                                let want = want.unwrap();
+                                let bad = match seen {
+                                    Some(Ok(a)) => diff(&a, &want).map(|(k, d)| (k, d)),
+                                    Some(Err(e)) => Some(("get-none", e)),
+                                    None => None,
+                                };
+                                if let Some((k, d)) = bad {
+                                    return Err(Fail {
+                                        sig: format!("permuted_mut:{k}"),
+                                        detail: format!("NdTensor::permuted_mut view differs: {d}; ops so far {:?}", ctx.trace),
+                                    });
+                                }
+                                ctx.applied += 1;
+                                run(Cur::Owned(nt), want, rest, ctx, name)
+                            }
+                            None => {
+                                ctx.label("request-rejected-by-both");
+                                Ok(())
+                            }
+                        };
+                    }
+                }
+            }
             in_place!(r.permute(&order), "", false, {
                 t.permute(&order);
                 Ok(())
             })
         }
-        Op::Transpose => in_place!(Ok(r.transpose()), "", false, {
-            t.transpose();
-            Ok(())
-        }),
+        Op::Transpose => {
+            if st {
+                static_owned!("static:transpose", Ok(r.transpose()), |n| n.transpose());
+            }
+            in_place!(Ok(r.transpose()), "", false, {
+                t.transpose();
+                Ok(())
+            })
+        }
         Op::MoveAxis { from, to } => {
             let (f, to) = (sel(*from, nd), sel(*to, nd));
+            if st {
+                static_owned!("static:move_axis(owned)", r.move_axis(f, to), |n| n.move_axis(f, to));
+            }
             in_place!(r.move_axis(f, to), "", false, {
                 t.move_axis(f, to);
                 Ok(())
@@ -1026,6 +1357,9 @@ fn step_owned(mut t: Tensor<i32>, r: RefArray, op: &Op, rest: &[Op], ctx: &mut C
             if !is_contiguous(&shape, &t.strides().to_vec()) {
                 ctx.label("clip_dim:noncontiguous");
             }
+            if st {
+                static_owned!("static:clip_dim", r.slice_axis(d, s, e), |n| n.clip_dim(d, s..e));
+            }
             in_place!(r.slice_axis(d, s, e), "", false, {
                 t.clip_dim(d, s..e);
                 Ok(())
@@ -1117,7 +1451,7 @@ fn oracle(c: &Case) -> Verdict {
     }
     let (b, data, expected) = recipe.fill();
     let r = RefArray::new(b.shape.clone(), expected);
-    let mut ctx = Ctx::default();
+    let mut ctx = Ctx { static_flags: c.nd.clone(), ..Ctx::default() };
     let src_noncontig = !is_contiguous(&b.shape, &b.strides);
     let res = if c.owned {
         let t = owned_of(&b, &data);
@@ -1141,6 +1475,9 @@ fn oracle(c: &Case) -> Verdict {
     });
     for op in &c.ops {
         labels.push(op.name());
+    }
+    if ctx.static_ops > 0 {
+        labels.push("static-rank:some-op");
     }
     labels.sort();
     labels.dedup();
@@ -1192,7 +1529,8 @@ fn op_strategy() -> impl Strategy<Value = Op> {
         8 => (proptest::collection::vec(sitem(), 0..6), slice_api).prop_map(|(items, api)| Op::Slice { items, api }),
         2 => (b, b, b).prop_map(|(axis, a, b)| Op::SliceAxis { axis, a, b }),
         2 => (b, b).prop_map(|(axis, index)| Op::IndexAxis { axis, index }),
-        4 => (proptest::collection::vec(0u8..6, 0..6), prop::bool::weighted(0.08)).prop_map(|(keys, bad)| Op::Permute { keys, bad }),
+        // 6 independent keys: the argsort is (nearly) uniform over all permutations of the current rank
+        5 => (proptest::collection::vec(any::<u8>(), 6..=6), prop::bool::weighted(0.08)).prop_map(|(keys, bad)| Op::Permute { keys, bad }),
         2 => Just(Op::Transpose),
         2 => (b, b).prop_map(|(from, to)| Op::MoveAxis { from, to }),
         3 => (
@@ -1228,8 +1566,13 @@ fn op_strategy() -> impl Strategy<Value = Op> {
 
 fn case(special: bool) -> impl Strategy<Value = Case> {
     let recipe = if special { special_recipe() } else { small_recipe(6, true) };
-    (recipe, prop::bool::weighted(0.35), proptest::collection::vec(op_strategy(), 1..=6))
-        .prop_map(|(recipe, owned, ops)| Case { recipe, owned, ops })
+    (
+        recipe,
+        prop::bool::weighted(0.35),
+        proptest::collection::vec(op_strategy(), 1..=6),
+        proptest::collection::vec(prop::bool::weighted(0.4), 6..=6),
+    )
+        .prop_map(|(recipe, owned, ops, nd)| Case { recipe, owned, ops, nd })
 }
 
 fn main() {
@@ -1260,7 +1603,7 @@ fn main() {
     ck.assume("after a panic of an in-place operation on an owned tensor the tensor is not inspected further");
     ck.set_threads(16);
 
-    ck.prop("chains", ck.pick(200_000, 3_000_000), || case(false), oracle);
-    ck.prop("chains-special", ck.pick(40_000, 500_000), || case(true), oracle);
+    ck.prop("chains", ck.pick(500_000, 3_000_000), || case(false), oracle);
+    ck.prop("chains-special", ck.pick(100_000, 500_000), || case(true), oracle);
     ck.finish();
 }
